@@ -544,3 +544,117 @@ def typecheck_flag_obligations(ctx, rule: str, relpaths, floor: int = 1):
 
 def _norm_test(t):
   return A.unparse(t, 60).replace(' ', '')
+
+
+# ---------------------------------------------------------------------------
+# Rejection census: acceptance routines keep their refusals
+# ---------------------------------------------------------------------------
+
+def _rejection_signature(t, fn=None):
+  """What a rejecting test looks at: attribute names read + types demanded.  A
+  local that is a plain copy of an attribute chain (`value = self._dna.value`)
+  stands for that chain, so introducing or removing such a temporary does not
+  change the class of the test."""
+  from sa import dataflow as _D
+  sig = {n.attr.lstrip('_') for n in ast.walk(t) if isinstance(n, ast.Attribute)}
+  for c in ast.walk(t):
+    if isinstance(c, ast.Call) and A.call_name(c) == 'isinstance' and len(c.args) == 2:
+      sig.add('isinstance:' + A.unparse(c.args[1]))
+  if fn is not None:
+    receivers = {id(n.value) for n in ast.walk(t) if isinstance(n, ast.Attribute)}
+    receivers |= {id(c.func) for c in ast.walk(t) if isinstance(c, ast.Call)}
+    for n in ast.walk(t):
+      if isinstance(n, ast.Name) and id(n) not in receivers:
+        # a bare operand that is a plain copy of an attribute: the datum tested is that attribute
+        defs = [v for _, v in _D.defs_of(fn, n.id)]
+        if defs and all(isinstance(v, ast.Attribute) for v in defs):
+          sig |= {v.attr.lstrip('_') for v in defs}
+  exprs = [t]
+  # method names of calls are attributes too, but say nothing about WHAT is tested
+  for e in exprs:
+    for c in ast.walk(e):
+      if isinstance(c, ast.Call) and isinstance(c.func, ast.Attribute):
+        sig.discard(c.func.attr.lstrip('_'))
+        sig.add('call:' + c.func.attr.lstrip('_'))
+  return tuple(sorted(sig))
+
+
+def _bool_leaves(e):
+  if isinstance(e, ast.BoolOp):
+    out = []
+    for v in e.values:
+      out += _bool_leaves(v)
+    return out
+  if isinstance(e, ast.UnaryOp) and isinstance(e.op, ast.Not):
+    return _bool_leaves(e.operand)
+  return [e]
+
+
+def _quantified(e):
+  """elt of `all(<genexp>)` / `any(<genexp>)` (also a list comprehension), or None."""
+  if isinstance(e, ast.Call) and A.call_name(e) in ('all', 'any') and e.args \
+      and isinstance(e.args[0], (ast.GeneratorExp, ast.ListComp)):
+    return e.args[0].elt
+  return None
+
+
+def rejection_counts(idx: Index, f: Func, compat: bool = False, depth: int = 2):
+  """{signature: count} of the atomic rejecting tests of f and of the private
+  helpers it calls (two levels).  A test rejects when one of its outcomes always
+  raises; in a compatibility predicate also when it leads straight to
+  `return False`, and the conditions quantified by `return all(...)` /
+  `return any(...)` / `if any(...): return False` count like the tests of the
+  loop they replace."""
+  import collections
+  from sa import cfg as _C
+  cnt = collections.Counter()
+  seen = set()
+  for h in [f] + [x for x in helper_closure(idx, f, depth=depth) if x is not f]:
+    if h.fq in seen:
+      continue
+    seen.add(h.fq)
+    g = _C.cfg_of(h.node)
+    for k in g.nodes:
+      if k.kind == 'return' and compat and k.ast.value is not None:
+        q = _quantified(k.ast.value)
+        if q is not None:
+          for leaf in _bool_leaves(q):
+            sg = _rejection_signature(leaf, h.node)
+            if sg:
+              cnt[sg] += 1
+        continue
+      if k.kind != 'test':
+        continue
+      rej = any(g.always_raises_from(k, lab) for lab in ('true', 'false') if any(l == lab for _, l in k.succ))
+      if not rej and compat:
+        rej = any(m.kind == 'return' and m.ast.value is not None and A.unparse(m.ast.value) == 'False' for m, _ in k.succ)
+      if rej:
+        q = _quantified(k.ast)
+        leaves = _bool_leaves(q) if q is not None else [k.ast]
+        for leaf in leaves:
+          sg = _rejection_signature(leaf, h.node)
+          if sg:
+            cnt[sg] += 1
+  return cnt
+
+
+def rejection_census_obligations(ctx, rule: str, table, compat_names=('_is_compatible', 'is_compatible'), floor: int = 1):
+  """For every function of the committed census: for each class of rejection the
+  number of rejecting tests has not dropped.  Classes are by what the test looks
+  at (attributes read, types demanded) - regrouping with and/or, moving a guard
+  into a helper, renaming locals, flipping a comparison leave them unchanged; a
+  guard whose `raise` is gone lowers a count."""
+  idx = ctx.index
+  n = 0
+  for fq, ref in sorted(table.items()):
+    f = idx.func(fq)
+    cnt = rejection_counts(idx, f, compat=f.name in compat_names)
+    for sg, want in sorted(ref.items()):
+      n += 1
+      have = cnt.get(sg, 0)
+      ctx.ob(rule, f'{fq}#rejects:{"+".join(sg)}', have >= want,
+             f'{f.qualname} keeps its {want} refusal(s) that look at {{{", ".join(sg)}}}', f.loc,
+             f'only {have} of {want} rejecting tests on {{{", ".join(sg)}}} are left: something that was refused is now '
+             f'accepted')
+  if n < floor:
+    raise AnalysisError(f'{rule}: only {n} rejection classes checked (expected >= {floor})')
